@@ -1,10 +1,17 @@
 """C13: compilation is a deterministic, history-free function of the program.
 
-Two variations of the configuration around the same program text / imports / flags:
+Variations of the configuration around the same program text / imports / flags:
   (a) fresh interpreters with different PYTHONHASHSEED (one subprocess per seed compiles
-      the shard's whole batch);
-  (b) in-process histories (Hypothesis RuleBasedStateMachine) compared with the baseline
-      of a fresh PYTHONHASHSEED=0 interpreter.
+      the shard's whole batch; the alternative seed compiles it in the opposite order);
+  (b1) the batch is a history itself: sampled members are compiled again alone in a fresh
+      interpreter and compared with what the batch produced;
+  (b2) in-process histories (Hypothesis RuleBasedStateMachine) compared with the batch
+      baseline of the PYTHONHASHSEED=0 interpreter.
+A difference seen in (b1)/(b2), or in (a) but not between two single compilations, is
+CONFIRMED before it is reported: the recorded history (this state-machine run, the
+worker's whole process log, the batch prefix - first their two-step reductions, then the
+full list) is replayed in a fresh interpreter and compared with the target compiled
+alone; only a difference that no recorded history reproduces stays inconclusive.
 Oracle: byte equality of FormattedPredicateSql text, execution.table_to_export_map
 (contents) and the set of execution.dependency_edges after masking logical_stop_<digits>.
 """
@@ -25,12 +32,14 @@ ID = 'C13'
 # budget unit = one generated program or one in-process history (half and half);
 # the integration corpus is an enumerated sub-domain on top (split by index % shards)
 BUDGET = {'quick': 16 * 10, 'thorough': 16 * 260}
-WALL = {'quick': 900, 'thorough': 5400}
+WALL = {'quick': 1800, 'thorough': 7200}   # guards for an overloaded machine only
 RULE = ('programs = every .l file under integration_tests (golden predicate of the '
         'repository runner; all predicates in the thorough tier; psql->duckdb variants) + '
         'generated programs (recursive components of 1-4 members in every unfolding mode '
         '(vertical, flat, @Recursive depth>20 iterative, mode iterative/diamond, stop:, '
-        'satellites), functor chains with 1-3 arguments, explicit @Iteration, imports of '
+        'satellites; every shard holds one vertically unfolded component of 3-4 members '
+        'with two rules each, compiled under 3 (thorough 4) further hash seeds), functor '
+        'chains with 1-3 arguments, explicit @Iteration, imports of '
         '1-3 files, user aggregations/functions, plain core-fragment programs, programs '
         'failing with each diagnostic type, programs with tight arithmetic, main files '
         'with the experimental-syntax incantation) on sqlite/duckdb/psql/clickhouse/'
@@ -38,14 +47,25 @@ RULE = ('programs = every .l file under integration_tests (golden predicate of t
         'interpreters under PYTHONHASHSEED 0 and a drawn seed; non-trivial when the '
         'program has a multi-member recursion/iteration/functor/import/udf set or >= 2 '
         'exported tables. "history" = one state-machine run (parse, compile, '
-        'compile_failing, compile_incantation, compile_sensitive, reuse_rules) in the '
-        'worker process, every produced text compared with the fresh-interpreter baseline; '
+        'compile_failing, compile_incantation, compile_sensitive, reuse_rules, '
+        'engine_switch = a program of engine A then a built-in program of engine B != A, '
+        'import_switch = two programs importing equally named modules from different '
+        'roots) '
+        'in the worker process, every produced text compared with the batch baseline; '
         'non-trivial when >= 2 compilations happened and a different program preceded the '
-        'last target. Distinct by hash of (program text, predicate, seed) resp. the step '
-        'list.')
+        'last target. "batch_history" = one (program, predicate) of the baseline batch '
+        '(which compiled up to 40 programs of up to 9 engines before it) compiled again '
+        'alone in a fresh interpreter; non-trivial when a different program preceded it '
+        'in the batch. Built-in programs = 2-7 expressions over 40 built-in functions / '
+        'infix operators and 0-3 of 12 aggregations whose SQL template is chosen per '
+        'dialect, on 8 engines + default; every shard holds three of pairwise different '
+        'engines. Budget unit = one generated program or 3 (thorough 2) histories. '
+        'Distinct by hash of (program text, predicate, seed) resp. the step list resp. '
+        '(texts compiled before, program text, predicate).')
 ASSUMPTIONS = ['CPython string hashing is the only effect of PYTHONHASHSEED',
                'a fresh interpreter with PYTHONHASHSEED=0 compiling one program is the '
-               'reference configuration',
+               'reference configuration (every reported history difference is against it; '
+               'the batch baseline only detects)',
                'only logical_stop_<digits> is masked',
                'order of dict keys of table_to_export_map and order of the edge list are '
                'recorded as notes, not compared (consumers treat them as sets)',
@@ -79,10 +99,10 @@ DEFAULT_COST = 0.6
 HEAVY_COST = 10          # thorough tier only
 HISTORY_MAX_COST = 2     # in-process histories use cheaper programs only
 
-QUICK = dict(gen_frac=0.5, alt_seeds=1, corpus_extra_preds=0, steps=6, min_tests=12,
-             hist_per_unit=3, singles=6)
+QUICK = dict(gen_frac=0.5, alt_seeds=1, corpus_extra_preds=0, steps=6, min_tests=8,
+             hist_per_unit=3, singles=6, extra_seeds=3)
 THOROUGH = dict(gen_frac=0.6, alt_seeds=3, corpus_extra_preds=99, steps=10, min_tests=40,
-                hist_per_unit=2, singles=24)
+                hist_per_unit=2, singles=24, extra_seeds=4)
 BATCH = 40               # items per batch subprocess
 
 
@@ -228,7 +248,8 @@ def minimise(case, bucket):
     # 2. shrink the text of every program involved, statement by statement
     for pid in sorted(used):
         item = case['pool'][pid]
-        if item.get('role') == 'corpus' and len(item['text']) > 6000:
+        if item.get('role') == 'corpus' and (len(item['text']) > 3000 or
+                                             COST.get(pid, DEFAULT_COST) > 1):
             continue
         stmts = [s for s in item['text'].split(';\n')]
         if len(stmts) < 3:
@@ -297,10 +318,12 @@ def build_pool(ctx, col, prm):
     # every shard needs the special roles for its histories
     fixed = []
     core.hyp_run(fixed.append, st.tuples(G.failing_program(), G.incantation_program(),
-                                         G.tight_program(), G.builtin_trio()),
+                                         G.tight_program(), G.builtin_trio(),
+                                         G.import_pair(),
+                                         G.rec_program(vertical_multi=True)),
                  6, ctx.hyp_seed + 2)
     # (a late example: the first ones are the simplest)
-    gen += list(fixed[-1][:3]) + list(fixed[-1][3])
+    gen += list(fixed[-1][:3]) + list(fixed[-1][3]) + list(fixed[-1][4]) + [fixed[-1][5]]
     for j, it in enumerate(gen):
         it['id'] = 'gen:%d' % j
         it['prefer'] = it.pop('preds')
@@ -462,7 +485,7 @@ def shard(ctx, col):
     t_start = time.time()
     prm = params(ctx.tier)
     MIN_TESTS[0] = prm['min_tests']
-    alt_seeds, pick = _draw_plan(ctx, prm['alt_seeds'])
+    alt_seeds, pick = _draw_plan(ctx, prm['alt_seeds'] + prm['extra_seeds'])
     hs0 = own_hashseed()           # the runner starts workers with PYTHONHASHSEED=0
     if hs0 is None:
         col.inconc('worker_runs_with_random_hash_seed')
@@ -486,8 +509,15 @@ def shard(ctx, col):
             baseline[(it['id'], p)] = o
     n_known = [0]
     for si, hs in enumerate(alt_seeds):
-        # the first alternative seed sees everything, further seeds the generated part
+        # the first alternative seed sees everything, further seeds the generated part,
+        # the extra seeds only the programs whose unfolding walks a set of >= 2 names
+        # (cheap, and each seed is one more drawn order of that set)
         sub_items = items if si == 0 else [it for it in items if it['id'].startswith('gen')]
+        if si >= prm['alt_seeds']:
+            sub_items = [it for it in items
+                         if 'vertical_multi_member' in it.get('labels', [])]
+            if not sub_items:
+                continue
         alt_order = {}
         try:
             # the other hash seed compiles every batch in the opposite order
@@ -506,9 +536,22 @@ def shard(ctx, col):
                 case = {'kind': 'seeds', 'pool': {it['id']: pool[it['id']]},
                         'steps': [['compile_all', it['id'], it['prefer'], 0, pick]],
                         'seeds': [hs0, hs]}
-                col.fail('hashseed:predicate_list', case,
-                         'defined predicates differ: %r vs %r' % ([p for p, _ in a],
-                                                                  [p for p, _ in b]))
+                r = check_case(case)
+                if r:
+                    for bkt, det in r:
+                        col.fail(bkt, case, det)
+                    continue
+                # not the hash seed: the two batches parsed the file differently
+                tp = ([p for p, _ in a if p != '<parse>'] +
+                      [p for p, _ in b if p != '<parse>'] + list(it['prefer']))[0]
+                g = 'history:predicate_list'
+                if not (confirm_batch_history(col, pool, base_order, base, it['id'], tp, hs0, g)
+                        or confirm_batch_history(col, pool, alt_order, alt, it['id'], tp, hs,
+                                                 g)):
+                    col.inconc('seed_difference_only_inside_batch')
+                    col.notes.append('predicate lists differ between the batches only: '
+                                     '%s %r vs %r' % (it['id'], [p for p, _ in a],
+                                                      [p for p, _ in b]))
                 continue
             for (p, oa), (_, ob) in zip(a, b):
                 labels = list(it.get('labels', [])) + ['kind:seeds']
@@ -538,7 +581,7 @@ def shard(ctx, col):
                 col.case(key, nt, labels + (['multiset'] if ms else []),
                          sample={'kind': 'seeds', 'seeds': [hs0, hs], 'predicate': p,
                                  'program': it['text'][:1500]})
-                if d and history_bucket(d, oa, ob) in CONFIRMED and n_known[0] >= 3:
+                if d and history_bucket(d, oa, ob) in CONFIRMED and n_known[0] >= 1:
                     # bounded work once a history dependence of this kind is established
                     col._fail_count[history_bucket(d, oa, ob)] += 1
                     continue
@@ -596,11 +639,14 @@ def check_batch_singles(ctx, col, prm, items, pool, base, order, hs0, pick):
              order.get(it['id'], [None])[0] != it['id']]
     if not cands or n <= 0:
         return
+    def is_imp(it):
+        return 'shape:imports' in it.get('labels', [])
     bi = [it for it in cands if is_builtins(it)]
-    rest = [it for it in cands if not is_builtins(it)]
+    im = [it for it in cands if is_imp(it)]
+    rest = [it for it in cands if not is_builtins(it) and not is_imp(it)]
     k = pick % len(rest) if rest else 0
     rest = rest[k:] + rest[:k]
-    chosen = bi[:(n + 1) // 2]
+    chosen = bi[:n // 2] + im[-1:]          # the last import program: one precedes it
     chosen += rest[:n - len(chosen)]
     for it in chosen:
         try:
@@ -744,7 +790,8 @@ def run_histories(ctx, col, prm, items, pool, baseline, n_hist, hs0, batch=None)
              'sensitive': [u for u in usable if u[0].get('parser_state_sensitive')],
              'multi': [u for u in usable if len(u[1]) >= 1 and
                        u[0].get('role') in ('gen', 'corpus')],
-             'builtins': [u for u in usable if is_builtins(u[0])]}
+             'builtins': [u for u in usable if is_builtins(u[0])],
+             'imports': [u for u in usable if 'shape:imports' in u[0].get('labels', [])]}
     eng = {u[0]['id']: engine_of(u[0]) for u in usable}
     if not usable:
         return
@@ -810,6 +857,18 @@ def run_histories(ctx, col, prm, items, pool, baseline, n_hist, hs0, batch=None)
             H.labels.add('switch_to:' + eng[b['id']])
             self._compile(a, p)
             self._compile(b, preds[pj % len(preds)])
+
+        @precondition(lambda self: len(roles['imports']) >= 2)
+        @rule(i=idx, j=idx, pi=idx, pj=idx)
+        def import_switch(self, i, j, pi, pj):
+            """Two programs importing equally named modules from different roots."""
+            lst = roles['imports']
+            a, pa = lst[i % len(lst)]
+            rest = [u for u in lst if u[0]['id'] != a['id']]
+            b, pb = rest[j % len(rest)]
+            H.labels.add('step:import_switch')
+            self._compile(a, pa[pi % len(pa)])
+            self._compile(b, pb[pj % len(pb)])
 
         @precondition(lambda self: bool(roles['multi']))
         @rule(i=idx, pi=idx, pj=idx, mode=st.sampled_from(['rules_twice', 'program_twice']))
